@@ -133,8 +133,8 @@ impl From<SendError> for TrySendError {
     }
 }
 
-impl From<mpsc::error::TrySendError<PortEvt>> for TrySendError {
-    fn from(err: mpsc::error::TrySendError<PortEvt>) -> Self {
+impl<T> From<mpsc::error::TrySendError<T>> for TrySendError {
+    fn from(err: mpsc::error::TrySendError<T>) -> Self {
         match err {
             mpsc::error::TrySendError::Full(_) => Self::Full,
             mpsc::error::TrySendError::Closed(_) => Self::Send(SendError::ChMux),
@@ -280,10 +280,13 @@ impl Sender {
     pub async fn send(&mut self, mut data: Bytes) -> Result<(), SendError> {
         if data.is_empty() {
             let mut credits = self.credits.request(1, 1).await?;
+
+            // Reserve queue space before consuming credits, so that none are lost on cancellation.
+            let permit = self.tx.reserve().await?;
             credits.take(1);
 
             let msg = PortEvt::SendData { remote_port: self.remote_port, data, first: true, last: true };
-            self.tx.send(msg).await?;
+            permit.send(msg);
         } else {
             let mut first = true;
             let mut credits = AssignedCredits::default();
@@ -292,6 +295,9 @@ impl Sender {
                 if credits.is_empty() {
                     credits = self.credits.request(data.len().min(u32::MAX as usize) as u32, 1).await?;
                 }
+
+                // Reserve queue space before consuming credits, so that none are lost on cancellation.
+                let permit = self.tx.reserve().await?;
 
                 let at = data.len().min(self.chunk_size).min(credits.available() as usize);
                 let chunk = data.split_to(at);
@@ -304,7 +310,7 @@ impl Sender {
                     first,
                     last: data.is_empty(),
                 };
-                self.tx.send(msg).await?;
+                permit.send(msg);
 
                 first = false;
             }
@@ -329,9 +335,11 @@ impl Sender {
         if data.is_empty() {
             match self.credits.try_request(1)? {
                 Some(mut credits) => {
+                    // Credits are returned if no queue space is available.
+                    let permit = self.tx.try_reserve()?;
                     credits.take(1);
                     let msg = PortEvt::SendData { remote_port: self.remote_port, data, first: true, last: true };
-                    self.tx.try_send(msg)?;
+                    permit.send(msg);
                     Ok(())
                 }
                 None => Err(TrySendError::Full),
@@ -339,6 +347,10 @@ impl Sender {
         } else {
             match self.credits.try_request(data.len().min(u32::MAX as usize) as u32)? {
                 Some(mut credits) => {
+                    // Reserve queue space for all chunks, so that the message is sent completely
+                    // or not at all. Credits are returned if no queue space is available.
+                    let mut permits = self.tx.try_reserve_many(data.len().div_ceil(self.chunk_size))?;
+
                     let mut first = true;
                     while !data.is_empty() {
                         let at = data.len().min(self.chunk_size);
@@ -352,7 +364,7 @@ impl Sender {
                             first,
                             last: data.is_empty(),
                         };
-                        self.tx.try_send(msg)?;
+                        permits.next().unwrap().send(msg);
 
                         first = false;
                     }
@@ -410,6 +422,8 @@ impl Sender {
             let next =
                 if ports_response.len() > max_ports { ports_response.split_off(max_ports) } else { Vec::new() };
 
+            // Reserve queue space before consuming credits, so that none are lost on cancellation.
+            let permit = self.tx.reserve().await?;
             credits.take((ports_response.len() * size_of::<u32>()) as u32);
 
             let msg = PortEvt::SendPorts {
@@ -419,7 +433,7 @@ impl Sender {
                 wait,
                 ports: ports_response,
             };
-            self.tx.send(msg).await?;
+            permit.send(msg);
 
             ports_response = next;
             first = false;
@@ -494,11 +508,14 @@ impl<'a> ChunkSender<'a> {
             if self.credits.is_empty() {
                 self.credits = self.sender.credits.request(1, 1).await?;
             }
+
+            // Reserve queue space before consuming credits, so that none are lost on cancellation.
+            let permit = self.sender.tx.reserve().await?;
             self.credits.take(1);
 
             let msg =
                 PortEvt::SendData { remote_port: self.sender.remote_port, data, first: self.first, last: finish };
-            self.sender.tx.send(msg).await?;
+            permit.send(msg);
 
             self.first = false;
         } else {
@@ -507,6 +524,9 @@ impl<'a> ChunkSender<'a> {
                     self.credits =
                         self.sender.credits.request(data.len().min(u32::MAX as usize) as u32, 1).await?;
                 }
+
+                // Reserve queue space before consuming credits, so that none are lost on cancellation.
+                let permit = self.sender.tx.reserve().await?;
 
                 let at = data.len().min(self.sender.chunk_size).min(self.credits.available() as usize);
                 let chunk = data.split_to(at);
@@ -519,7 +539,7 @@ impl<'a> ChunkSender<'a> {
                     first: self.first,
                     last: data.is_empty() && finish,
                 };
-                self.sender.tx.send(msg).await?;
+                permit.send(msg);
 
                 self.first = false;
             }
